@@ -1,12 +1,16 @@
-"""C03 - build-script histories: BuildSystem::generate_at_build_time() (what a build.rs calls) run
-again and again into ONE output directory while the source tree changes or not between the runs.
-After every run every discovered command must have exactly its wrapper in commands.ts.
+"""C03 - histories: the build-script entry point BuildSystem::generate_at_build_time() (what a build.rs
+calls) and the CLI (`generate`, configuration from tauri.conf.json in the working directory) run again and
+again into ONE output directory, forced or not, while the source tree changes, stays, or returns to an
+earlier state between the runs. After every run every discovered command must have exactly its wrapper.
 
 A history case is a JSON value
   {"hist": true,
    "project_path": "./src-tauri/src" | ...   plugins.typegen.projectPath, relative to the project root (= cwd)
    "mode": "none" | "zod",
    "labels": [s, ...]                        how each tree was obtained from the one before (informative)
+   "routes": ["build" | "cli", ...]          per run (default build)
+   "force": ["no" | "flag" | "config", ...]  per run (default no): --force on the command line (CLI only; the
+                                             build route takes it as config) or "force": true in plugins.typegen
    "steps": [tree, tree, ...]}               the entries of the project path at each run (c03_gen node grammar;
                                              a function item may carry "body": text, which only the printer reads)
 Model: C03Discover.build_history (state of the output directory, cache hit / regeneration / removal);
@@ -114,13 +118,39 @@ def gen_history(rng, kinds=None):
     rng.shuffle(fresh)
     tree = base_tree(rng)
     if kinds is None:
-        kinds = [rng.choice(EDITS) if rng.random() < 0.6 else rng.choice(["same", "body"]) for _ in range(rng.choice([1, 2, 2, 3, 3, 4]))]
+        kinds = [rng.choice(EDITS + ["revert", "revert"]) if rng.random() < 0.6 else rng.choice(["same", "body"])
+                 for _ in range(rng.choice([1, 2, 2, 3, 3, 4]))]
     steps, labels = [tree], ["initial"]
     for k in kinds:
-        tree = edit(rng, tree, k, fresh)
+        if k == "revert":                    # back to an earlier tree of this history
+            tree = copy.deepcopy(rng.choice(steps[:-1] or steps))
+        else:
+            tree = edit(rng, tree, k, fresh)
         steps.append(tree)
         labels.append(k)
-    return {"hist": True, "project_path": rng.choice(PROJECT_PATHS), "mode": rng.choice(["none", "zod"]), "labels": labels, "steps": steps}
+    r = rng.random()
+    routes = [("build" if r < 0.4 else "cli" if r < 0.85 else rng.choice(["build", "cli"])) for _ in steps]
+    force = [rng.choice(["no", "no", "no", "flag", "config"]) for _ in steps]
+    return {"hist": True, "project_path": rng.choice(PROJECT_PATHS), "mode": rng.choice(["none", "zod"]), "labels": labels,
+            "routes": routes, "force": force, "steps": steps}
+
+
+def force_and_return():
+    """Exhaustive: every sequence of three runs over two fixed trees A, B x every pattern of forced runs x both
+    routes (2^3 x 2^3 x 2 = 128 histories): plain A, forced B, plain A again is one of them."""
+    a = [G.one_cmd_file("lib.rs", "list_users"), {"t": "d", "name": "cmds", "ch": [G.one_cmd_file("del.rs", "delete_user")]}]
+    b = [G.one_cmd_file("lib.rs", "list_users"), {"t": "d", "name": "cmds", "ch": [G.one_cmd_file("del.rs", "archive_user"),
+                                                                                  G.one_cmd_file("count.rs", "count_users")]}]
+    out = []
+    for route in ("cli", "build"):
+        for trees in range(8):
+            for forced in range(8):
+                steps = [copy.deepcopy(b if trees >> i & 1 else a) for i in range(3)]
+                force = [("flag" if route == "cli" and i != 1 else "config") if forced >> i & 1 else "no" for i in range(3)]
+                out.append({"hist": True, "project_path": "./src-tauri/src", "mode": "none" if (trees + forced) % 2 else "zod",
+                            "labels": ["initial"] + ["B" if trees >> i & 1 else "A" for i in (1, 2)], "routes": [route] * 3,
+                            "force": force, "steps": steps})
+    return out
 
 
 def small_scope(rng):
@@ -130,7 +160,7 @@ def small_scope(rng):
             {"t": "d", "name": "cmds", "ch": [G.one_cmd_file("count.rs", "count")]}]
     out = []
     seqs = [[a] for a in SMALL_SCOPE_EDITS] + [[a, b] for a in SMALL_SCOPE_EDITS for b in SMALL_SCOPE_EDITS]
-    for mode in ("none", "zod"):
+    for mode, route in (("none", "build"), ("zod", "build"), ("none", "cli")):
         for seq in seqs:
             fresh = ["h_%s" % c for c in "abcdef"]
             tree, steps, labels = base, [base], ["initial"]
@@ -138,7 +168,8 @@ def small_scope(rng):
                 tree = edit(rng, tree, k, fresh)
                 steps.append(tree)
                 labels.append(k)
-            out.append({"hist": True, "project_path": "./src-tauri/src", "mode": mode, "labels": labels, "steps": steps})
+            out.append({"hist": True, "project_path": "./src-tauri/src", "mode": mode, "labels": labels,
+                        "routes": [route] * len(steps), "force": ["no"] * len(steps), "steps": steps})
     return out
 
 
@@ -163,24 +194,33 @@ def evaluate(cases, tag="c03-hist"):
             i, c = ic
             root = sb.path("h%d/app" % i)
             os.makedirs(root, exist_ok=True)
-            conf = {"productName": "demo", "plugins": {"typegen": {"projectPath": c["project_path"], "outputPath": "./src/generated",
-                                                                    "validationLibrary": c["mode"]}}}
-            with open(os.path.join(root, "tauri.conf.json"), "w") as f:
-                json.dump(conf, f)
             src = os.path.normpath(os.path.join(root, c["project_path"]))
             runs = []
-            for tree in c["steps"]:
+            for j, tree in enumerate(c["steps"]):
+                route, force = routes_of(c)[j], force_of(c)[j]
+                tg = {"projectPath": c["project_path"], "outputPath": "./src/generated", "validationLibrary": c["mode"]}
+                if force == "config" or (force == "flag" and route == "build"):
+                    tg["force"] = True
+                with open(os.path.join(root, "tauri.conf.json"), "w") as f:
+                    json.dump({"productName": "demo", "plugins": {"typegen": tg}}, f)
                 shutil.rmtree(os.path.join(root, "src-tauri"), ignore_errors=True)
                 shutil.rmtree(sb.path("h%d/__ext" % i), ignore_errors=True)
                 G.write_tree(src, tree, sb.path("h%d/__ext" % i))
-                o = build_run(root)
+                if route == "build":
+                    o = build_run(root)
+                else:
+                    rc, text = sb.cli(["generate"] + (["--force"] if force == "flag" else []), cwd=root)
+                    o = {"ok": rc == 0, "err": "" if rc == 0 else text[-300:],
+                         "stderr": text[-200:] if ("up to date" in text or "No Tauri commands" in text) else ""}
                 p = os.path.join(root, "src", "generated", "commands.ts")
                 o["written"] = os.path.exists(p)
                 o["commands_ts"] = open(p, "rb").read().decode("utf-8", "replace") if o["written"] else ""
                 runs.append(o)
             return runs
         allruns = vlib.pmap(one, list(enumerate(cases)))
-        models = vlib.run_runner("c03-history", [sx([c["project_path"], [G.tree_sx(t) for t in c["steps"]]]) for c in cases])
+        models = vlib.run_runner("c03-history", [sx([c["project_path"], [[r == "cli", f != "no", G.tree_sx(t)]
+                                                                          for r, f, t in zip(routes_of(c), force_of(c), c["steps"])]])
+                                                 for c in cases])
         for m in models:
             if m and m[0] == "runner-error":
                 raise vlib.BuildError("runner: %s" % m)
@@ -196,7 +236,7 @@ def evaluate(cases, tag="c03-hist"):
     k = 0
     from tools.props.c03 import has_cmd_attr
     for c, m, runs in zip(cases, models, allruns):
-        corr, ok, steps = True, True, []
+        corr, ok, steps, kf = True, True, [], None
         for j, (step, o) in enumerate(zip(m, runs)):
             if step[0] != "true":
                 raise vlib.BuildError("history generator produced a layout outside the domain: %s" % json.dumps(c["steps"][j])[:300])
@@ -210,15 +250,27 @@ def evaluate(cases, tag="c03-hist"):
                 this_ok, this_corr = (not spec) and not o["written"], False
             ok &= this_ok
             corr &= this_corr
-            steps.append({"run": j, "edit": c["labels"][j], "spec": spec, "model": sorted(tuple(p) for p in step[1]),
+            if step[3] == "true":
+                kf = "C03-3"
+            steps.append({"run": j, "edit": c["labels"][j], "route": routes_of(c)[j], "force": force_of(c)[j], "in_class_C03_3": step[3] == "true", "spec": spec, "model": sorted(tuple(p) for p in step[1]),
                           "build_ok": o.get("ok"), "err": o.get("err", ""), "commands_ts_written": o["written"], "module_parsed": parsed,
                           "wrappers": ws, "oracle_ok": this_ok, "matches_model": this_corr, "stderr_tail": o.get("stderr", "")})
         nontrivial = any(has_cmd_attr({"tree": t}) for t in c["steps"])
-        outs.append(Outcome(c, corr, ok, None, {"project_path": c["project_path"], "mode": c["mode"], "runs": steps}, nontrivial=nontrivial))
+        outs.append(Outcome(c, corr, ok, kf, {"project_path": c["project_path"], "mode": c["mode"], "runs": steps}, nontrivial=nontrivial))
     return outs
 
 
+def routes_of(c):
+    return c.get("routes") or ["build"] * len(c["steps"])
+
+
+def force_of(c):
+    return c.get("force") or ["no"] * len(c["steps"])
+
+
 def stats(case, acc):
+    for r, f in zip(routes_of(case), force_of(case)):
+        acc["history_run:%s:%s" % (r, "forced_" + f if f != "no" else "plain")] = acc.get("history_run:%s:%s" % (r, "forced_" + f if f != "no" else "plain"), 0) + 1
     acc["history_length:%d" % len(case["steps"])] = acc.get("history_length:%d" % len(case["steps"]), 0) + 1
     acc["history_mode:" + case["mode"]] = acc.get("history_mode:" + case["mode"], 0) + 1
     for l in case["labels"][1:]:
